@@ -1299,6 +1299,89 @@ func (e *pegEngine) checkPositionPrimitives(r *Run, rule string, report func(str
 		}
 		report("read", fn, probs, n)
 	}
+	// the frames of labels: pushV opens an empty frame on top of the stack, popV removes the top frame
+	if fn := e.pushV; fn != nil {
+		var probs []string
+		n := 0
+		ps := NewPathSim(prog)
+		p := paramSym(fn.Params[0])
+		vs := loadField(p, "vstack")
+		for _, sm := range ps.Run(fn) {
+			if sm.Ret == nil {
+				continue
+			}
+			n++
+			grown, fresh := false, false
+			for _, ev := range sm.Events() {
+				if !ev.Store {
+					continue
+				}
+				if ev.Args[0].K == sFieldAddr && ev.Args[0].Str == "vstack" {
+					v := ev.Args[1]
+					switch {
+					case v.K == sSlice && v.A != nil && v.A.Key() == vs.Key() && strings.HasPrefix(v.Str, ":bin(+,len("):
+						grown = true // vstack[:len+1]
+					case v.K == sCall:
+						if base, parts := appendChain(sm.St, v); base != nil && base.Key() == vs.Key() && len(parts) == 1 {
+							grown = true // append(vstack, nil)
+						}
+					}
+				}
+				if ev.Args[0].K == sIndexAddr && ev.Args[1].K == sFresh {
+					if _, isMk := ev.Args[1].V.(*ssa.MakeMap); isMk {
+						fresh = true // top = make(map…)
+					}
+				}
+			}
+			if !grown {
+				probs = append(probs, "pushV does not grow the stack of frames by one"+trailOf(sm))
+			}
+			if !fresh {
+				// the frame found there is reused: only when it is known to be an empty, non-nil map
+				okReuse := false
+				for k, v := range sm.St.facts {
+					if strings.HasPrefix(k, "cmp(==,len(") && strings.Contains(k, "vstack") && strings.HasSuffix(k, ",const(0))") && v {
+						okReuse = true
+					}
+				}
+				for k, c := range sm.St.eqc {
+					if strings.HasPrefix(k, "len(") && strings.Contains(k, "vstack") && c == "const(0)" {
+						okReuse = true
+					}
+				}
+				if !okReuse {
+					probs = append(probs, "pushV leaves a frame on top that is not known to be empty: labels of an abandoned alternative would be visible"+trailOf(sm))
+				}
+			}
+		}
+		report("push-frame", fn, probs, n)
+	}
+	if fn := e.popV; fn != nil {
+		var probs []string
+		n := 0
+		ps := NewPathSim(prog)
+		p := paramSym(fn.Params[0])
+		vs := loadField(p, "vstack")
+		for _, sm := range ps.Run(fn) {
+			if sm.Ret == nil {
+				continue
+			}
+			n++
+			shrunk := false
+			for _, ev := range sm.Events() {
+				if ev.Store && ev.Args[0].K == sFieldAddr && ev.Args[0].Str == "vstack" {
+					v := ev.Args[1]
+					if v.K == sSlice && v.A != nil && v.A.Key() == vs.Key() && strings.HasPrefix(v.Str, ":bin(-,len(") && strings.HasSuffix(v.Str, ",const(1))") {
+						shrunk = true
+					}
+				}
+			}
+			if !shrunk {
+				probs = append(probs, "popV does not remove exactly the top frame (vstack[:len-1])"+trailOf(sm))
+			}
+		}
+		report("pop-frame", fn, probs, n)
+	}
 	_ = types.Typ
 }
 
